@@ -45,6 +45,9 @@ class NatGen(libgen.Gen):
         self.ordering = False
         self.oddities = False
         self.next_cls_name = None
+        self.n_top = None
+        self.top_count = 0
+        self.in_extra = False
         self.deck = []
         self.model["features"] = []
         self.free_extra = []       # callables that emit free functions later (inside the last BEGIN_PUBLISH)
@@ -118,7 +121,57 @@ class NatGen(libgen.Gen):
         at = len(self.h) - 5
         assert self.h[at] == "public:", self.h[at:]
         self.h[at:at] = extra
+        if ns is None and not self.in_extra:
+            self.top_count += 1
+            if self.top_count == self.n_top:
+                self.add_mi_group()
         return cls
+
+    def depth(self, q):
+        return 1 + max([self.depth(b["qname"]) for b in self.classes[q]["bases"]], default=-1)
+
+    def ancs(self, q):
+        out = set()
+        for b in self.classes[q]["bases"]:
+            out |= {b["qname"]} | self.ancs(b["qname"])
+        return out
+
+    def small_class(self, bases):
+        saved = self.size
+        self.size = 0.5
+        try:
+            return libgen.Gen.gen_class(self, bases=bases)
+        finally:
+            self.size = saved
+
+    def add_mi_group(self):
+        """class D : Deep, Shallow with depth(Deep) >= 2 > depth(Shallow) (the deeper base listed first) and overload
+        sets over {ancestors of Deep, Deep, Shallow, D}: an instance of each must reach exactly its own overload"""
+        self.in_extra = True
+        top = [c for c in self.model["classes"] if "::" not in c["qname"] and c.get("complete")]
+        deep = max(top, key=lambda c: self.depth(c["qname"]))
+        while self.depth(deep["qname"]) < 2:
+            deep = self.small_class([(deep["qname"], False)])
+        fam = self.ancs(deep["qname"]) | {deep["qname"]}
+        shallow = [c for c in top if c["qname"] not in fam and deep["qname"] not in self.ancs(c["qname"]) and
+                   not ((self.ancs(c["qname"]) | {c["qname"]}) & fam) and self.depth(c["qname"]) < self.depth(deep["qname"])]
+        sh = self.r.choice(shallow) if shallow else self.small_class([])
+        d = self.small_class([(deep["qname"], False), (sh["qname"], False)])
+        d["mi_deep_first"] = True
+        mid = self.classes[deep["qname"]]["bases"][0]["qname"]
+        self.model["mi_group"] = dict(deep=deep["qname"], shallow=sh["qname"], derived=d["qname"], mid=mid, sets=[])
+        self.feat("mi-deep-first")
+
+        def later():
+            for mode in ("cref", self.r.choice(["ptr", "cptr", "ref"])):
+                name = self.ident("mio_")
+                for q in [deep["qname"], d["qname"]] + self.r.sample([mid, sh["qname"]], self.r.choice([0, 1, 2])):
+                    f = self.emit(None, "free", name, [P(f"m0_{self.r.randrange(100)}", T("obj", cls=q, mode=mode))],
+                                  ret=T("int", c="int"), feature="mi-ovset")
+                    f["overload_set"] = name
+                self.model["mi_group"]["sets"].append(name)
+        self.free_extra.append(later)
+        self.in_extra = False
 
     def plain_class(self, ns):
         """a small class generated by libgen only (used as nested class)"""
@@ -346,8 +399,33 @@ class NatGen(libgen.Gen):
             fn["feature"] = "coerce"
             cls["ctors"].append(fn)
             added.append(fn)
+        # coercion needs a default-constructible class; multi-parameter constructors are reached by passing a tuple:
+        # an explicit one must never be used for that, a non-explicit one may
+        if not any(not c["params"] for c in cls["ctors"]):
+            fn = self.gen_function(cls, "ctor", name=name, ret=T("void"), params=[], indent=ind)
+            fn["feature"] = "coerce"
+            cls["ctors"].append(fn)
+        for cats, explicit in ((r.choice(["ii", "if", "si", "fi"]), True), (r.choice(["fs", "is", "ss", "ff"]), False)):
+            if not explicit and r.random() < 0.5:
+                continue
+            ps = [P(f"c{j}_{r.randrange(100)}", self.cat_type(ch)) for j, ch in enumerate(cats)]
+            key = tuple(self.catkey(p["type"]) for p in ps)
+            if any(len(k) == 2 and k == key for k in have) or any(len(c["params"]) == 2 and
+                   tuple(self.catkey(p["type"]) for p in c["params"]) == key for c in cls["ctors"]):
+                continue
+            have.add(key)
+            fn = self.gen_function(cls, "ctor", name=name, ret=T("void"), params=ps, indent=ind)
+            if explicit:
+                i = len(self.h) - 1
+                self.h[i] = self.h[i].replace(ind + name + "(", ind + "explicit " + name + "(", 1)
+                fn["explicit"] = True
+            fn["feature"] = "coerce"
+            cls["ctors"].append(fn)
+        cls["coerce"] = True
         # users: free functions taking the class by const reference / value / pointer
         def later():
+            ps = [P(f"k0_{r.randrange(100)}", T("obj", cls=q, mode="cref"))]
+            self.emit(None, "free", self.ident("fco_"), ps, ret=self.rand_scalar(False), feature="coerce-user")
             for mode in r.sample(["cref", "val", "cptr", "ref"], 2):
                 ps = [P(f"k0_{r.randrange(100)}", T("obj", cls=q, mode=mode))]
                 if r.random() < 0.4:
@@ -504,10 +582,23 @@ class NatGen(libgen.Gen):
 
     # ---- whole library
     def generate(self, n_classes=None, ns=None, dep_bases=()):
-        super().generate(n_classes=n_classes or self.r.choice([3, 4]), ns=ns, dep_bases=dep_bases)
+        self.n_top = n_classes or self.r.choice([3, 4])
+        super().generate(n_classes=self.n_top, ns=ns, dep_bases=dep_bases)
         # every library has a class with int item assignment through the sequence protocol (operator[] + size()) and
         # one through the mapping protocol, each with sources of const views: added after the fact where the deck did
         # not deal them
+        if not any(c.get("coerce") and not any(m["const"] and not m["static"] for m in c["members"])
+                   for c in self.model["classes"]):
+            for c in self.model["classes"]:
+                if "::" in c["qname"] or any(m["const"] and not m["static"] for m in c["members"]) or c.get("coerce"):
+                    continue
+                at = next(i for i, l in enumerate(self.h) if l == f"  unsigned long long st_{c['name']};") - 1
+                assert self.h[at] == "public:", self.h[at]
+                extra = self.capture(lambda: self.x_coerce(c, "  "))
+                self.h[at:at] = extra
+                c.setdefault("features", []).append("coerce")
+                self.feat("coerce")
+                break
         for want in (True, False):
             if any(c.get("item_array", {}).get("seq") == want for c in self.model["classes"]):
                 continue
